@@ -1471,6 +1471,27 @@ func (c *FnCtx) execSelect(st *State, x *ast.SelectStmt) []Outcome {
 			case *ast.AssignStmt:
 				c.execAssign(cst, cm)
 			}
+		} else {
+			// default case: taken only when no other case can proceed. For every receive case of this select a
+			// "default" channel event is raised, so a package that tracks what is available on a channel
+			// (`onsend default:ELEM(ch, v): assume ...`) can say that nothing was
+			for _, other := range x.Body.List {
+				oc := other.(*ast.CommClause)
+				var rx ast.Expr
+				switch cm := oc.Comm.(type) {
+				case *ast.ExprStmt:
+					rx = cm.X
+				case *ast.AssignStmt:
+					if len(cm.Rhs) == 1 {
+						rx = cm.Rhs[0]
+					}
+				}
+				if u, ok := ast.Unparen(rx).(*ast.UnaryExpr); rx != nil && ok && u.Op == token.ARROW && !containsEffectfulCall(c, u.X) {
+					if len(c.matchOnSend(chanElem(c.typeOf(u.X)), "default")) > 0 {
+						c.chanEvent(cst, "default", c.evalExpr(cst, u.X), Term{}, cc.Pos())
+					}
+				}
+			}
 		}
 		for _, o := range c.execBlock(cst, cc.Body) {
 			if o.kind == oBreak && (o.label == "" || o.label == label) {
